@@ -201,6 +201,13 @@ var funcSpecs = []funcSpec{
 		threaded: map[string][]string{"main.readSecret": {"tape"}, "main.printfToTerminal": {"tape"}}},
 	{rel: "cmd/age", name: "encrypt", abstract: []string{"armor.NewWriter", "age.Encrypt", "io.Copy"}, exits: []string{"main.errorf"}, world: true,
 		opaque: map[string]string{"age.Recipient": "ρ", "io.Writer": "ζ", "io.WriteCloser": "ζ", "tapeτ": "τ"}},
+	{rel: "cmd/age-keygen", name: "convert", abstract: []string{"age.ParseIdentities", "fmt.Fprintf"}, exits: []string{"main.errorf"}, world: true,
+		opaque: map[string]string{"age.Identity": "ι", "age.X25519Identity": "ι", "age.X25519Recipient": "ρ", "io.Writer": "ζ", "tapeτ": "τ"}},
+	{rel: "cmd/age-keygen", name: "generate", abstract: []string{"age.GenerateX25519Identity", "fmt.Fprintf", "term.IsTerminal", "time.Now"}, exits: []string{"main.errorf"}, world: true,
+		opaque: map[string]string{"age.X25519Identity": "ι", "age.X25519Recipient": "ρ", "os.File": "ζ", "io.Writer": "ζ", "time.Time": "θ", "tapeτ": "τ"}},
+	{rel: "cmd/age-keygen", name: "main", abstract: []string{"os.OpenFile", "os.Open", "flag.Arg", "main.convert", "main.generate", "main.warning"}, exits: []string{"main.errorf"}, world: true,
+		opaque: map[string]string{"os.File": "ζ", "io.Reader": "ζ", "io.Writer": "ζ", "fs.FileInfo": "φ", "tapeτ": "τ"}, startAt: "out := os.Stdout", startVars: []string{"convertFlag", "outFlag"},
+		stopAt: "convertFlag", stopRet: []string{}, expose: []string{"out", "in"}},
 	{rel: "", name: "aeadEncrypt", abstract: []string{"chacha20poly1305.New"}, opaque: map[string]string{"cipher.AEAD": "α"}},
 	{rel: "", name: "aeadDecrypt", abstract: []string{"chacha20poly1305.New"}, opaque: map[string]string{"cipher.AEAD": "α"}},
 	{rel: "agessh", name: "aeadEncrypt", abstract: []string{"chacha20poly1305.New"}, opaque: map[string]string{"cipher.AEAD": "α"}},
@@ -313,6 +320,7 @@ type fctx struct {
 	deferred     []ast.Stmt // bodies of `defer func() { … }()` statements passed so far (function level only)
 	tapeVar      *types.Var // the explicit crypto/rand state (funcSpec.tape)
 	logN         int        // log sites passed so far (funcSpec.logs)
+	printfN      int        // printf-like call sites of threaded abstract callees passed so far
 	hoisted      map[*types.Var]bool     // locals of a branch that a deferred closure of that branch uses: declared at the top of the function
 	condDefer    map[*ast.DeferStmt]string // a `defer` inside a branch -> the flag that records whether it was registered
 	deferGuard   map[ast.Stmt]string     // deferred block -> its flag
@@ -464,8 +472,8 @@ func leanTypeOf(t types.Type) (string, bool) {
 			return "UInt32", true
 		case types.Uint16:
 			return "UInt16", true // no arithmetic: only produced by binary.BigEndian.Uint16 and converted to int
-		case types.Int, types.Int32, types.Int64, types.UntypedInt, types.UntypedRune:
-			return "Int", true
+		case types.Int, types.Int32, types.Int64, types.UntypedInt, types.UntypedRune, types.Uintptr:
+			return "Int", true // (uintptr: only a file descriptor number handed from one abstract callee to another)
 		case types.String, types.UntypedString:
 			return "(List UInt8)", true
 		}
@@ -498,7 +506,7 @@ func kindOf(t types.Type) string {
 			return "u32"
 		case types.Uint16:
 			return "u16"
-		case types.Int, types.Int32, types.Int64, types.UntypedInt, types.UntypedRune:
+		case types.Int, types.Int32, types.Int64, types.UntypedInt, types.UntypedRune, types.Uintptr:
 			return "int"
 		case types.String, types.UntypedString:
 			return "str"
@@ -890,9 +898,10 @@ func (c *fctx) expr(e ast.Expr) string {
 			// a []byte variable of another package (curve25519.Basepoint): an abstract constant
 			if pn, ok := c.info().Uses[id].(*types.PkgName); ok && c.t.pr.ByPath[pn.Imported().Path()] == nil {
 				if v, ok := c.info().Uses[x.Sel].(*types.Var); ok {
-					if lt, ok := leanTypeOf(v.Type()); ok && lt == "(List UInt8)" {
+					if lt, ok := leanTypeOf(v.Type()); ok && (lt == "(List UInt8)" || len([]rune(lt)) == 1) {
+						// (or a value of a type that is opaque here — os.Stderr: a handle)
 						an := pn.Imported().Name() + "_" + x.Sel.Name
-						c.useAbstractName(an, "("+an+" : (List UInt8))")
+						c.useAbstractName(an, "("+an+" : "+lt+")")
 						return an
 					}
 				}
@@ -2442,14 +2451,22 @@ func (c *fctx) prepareCondDefers() []string {
 				if outer == nil {
 					continue
 				}
-				lit, ok := st.Call.Fun.(*ast.FuncLit)
-				if !ok || len(st.Call.Args) != 0 || lit.Type.Params.NumFields() != 0 {
+				var body ast.Node
+				if lit, ok := st.Call.Fun.(*ast.FuncLit); ok && len(st.Call.Args) == 0 && lit.Type.Params.NumFields() == 0 {
+					body = lit.Body
+				} else if sel, ok := ast.Unparen(st.Call.Fun).(*ast.SelectorExpr); ok {
+					// defer x.m(…) with x of an opaque type
+					if lt, ok := leanTypeOf(c.typeOf(sel.X)); ok && len([]rune(lt)) == 1 {
+						body = st.Call
+					}
+				}
+				if body == nil {
 					continue // refused where the statement is translated
 				}
 				flag := fmt.Sprintf("deferred_%d__", len(c.condDefer)+1)
 				c.condDefer[st] = flag
 				decls = append(decls, "let mut "+flag+" : Bool := false")
-				ast.Inspect(lit.Body, func(n ast.Node) bool {
+				ast.Inspect(body, func(n ast.Node) bool {
 					id, ok := n.(*ast.Ident)
 					if !ok {
 						return true
@@ -2993,9 +3010,13 @@ func (c *fctx) stmt(e *emitter, ind int, s ast.Stmt) {
 		// a defer registered under a condition runs only if control passed it: a flag records that (prepared by
 		// prepareCondDefers); in a loop: not modelled
 		if flag, ok := c.condDefer[st]; ok && c.lc == nil {
-			lit := st.Call.Fun.(*ast.FuncLit)
 			e.add(ind, flag+" := true")
-			blk := &ast.BlockStmt{List: lit.Body.List}
+			var blk *ast.BlockStmt
+			if lit, ok := st.Call.Fun.(*ast.FuncLit); ok {
+				blk = &ast.BlockStmt{List: lit.Body.List}
+			} else {
+				blk = &ast.BlockStmt{List: []ast.Stmt{&ast.ExprStmt{X: st.Call}}}
+			}
 			c.deferGuard[blk] = flag
 			c.deferred = append(c.deferred, blk)
 			return
